@@ -281,7 +281,7 @@ func c13shortcut(agg *aggregate, r *rendered, fd *ast.FuncDecl, f fieldInfo) {
 				if as, ok := inner.Init.(*ast.AssignStmt); ok && len(as.Rhs) == 1 {
 					initText = rules.ExprText(as.Rhs[0])
 				}
-				if !drops || !strings.Contains(initText, mask+".") {
+				if !drops || !strings.HasPrefix(initText, mask+".") {
 					return true
 				}
 				ic := strings.ReplaceAll(rules.ExprText(inner.Cond), " ", "")
